@@ -5,8 +5,10 @@
    plugins and the A/B splitting produce, as long as the resulting path is a contiguous chain of byte ranges over the
    *rewritten* text that starts at 0, ends at its length and cuts on character boundaries (`path_ok_b`; empty ranges are
    allowed), mapping it through the offset map of any reachable buffer state gives a partition of the *original* text.
-   That the real pipeline delivers such a chain (and reports exactly the mapped ranges) is checked on the implementation's
-   output by the correspondence run (check_c01), for all modes / plugin stacks / dictionaries generated there. *)
+   That the modelled pipeline (Lattice -> resolve_best_path -> path-rewrite plugins -> A/B split) delivers such a chain is
+   PROVED at the end of this file (C01_pipeline_partitions_original, Proofs/PipelineFull.v); that the real tokenizer reports
+   exactly these ranges is, in addition, checked on its output by the correspondence run (check_c01), for all modes /
+   plugin stacks / dictionaries / reuse sessions generated there. *)
 From Coq Require Import List NArith Arith.
 From Coq Require Import ZArith.
 From SudachiVerif Require Import Model.Buffer Proofs.BufferProofs Model.Lattice Proofs.PipelineProofs.
@@ -70,3 +72,122 @@ Theorem C01_best_path_partitions_original :
                  partition_b o ranges = true /\ concat (map (byte_slice o) ranges) = o.
 Proof. exact (best_path_partitions_original the_cfg C01_facts_ok). Qed.
 Print Assumptions C01_best_path_partitions_original.
+
+(* ================================================================== the whole pipeline (Proofs/PipelineFull.v)
+   Common notion: a path is a list of byte ranges over the rewritten text.  `grouped p q`: q is p with consecutive
+   non-empty groups replaced by (begin of the first, end of the last).  `tiled p q`: q is p with every range replaced by
+   a contiguous chain from its begin to its end.  `stage t` = one grouping, or one tiling whose cuts are character
+   boundaries of t. *)
+From Coq Require Import Relations.
+From SudachiVerif Require Import Proofs.PipelineFull.
+From SudachiVerif Require Model.Rewrite Proofs.RewriteProofs Model.Split Proofs.SplitProofs.
+
+(* (a) a grouping of a contiguous boundary-aligned chain is one *)
+Theorem C01_grouping_preserves_path_ok :
+  forall t p q, path_ok_b t p = true -> grouped p q -> path_ok_b t q = true.
+Proof. exact path_ok_grouped. Qed.
+Print Assumptions C01_grouping_preserves_path_ok.
+
+(* (b) replacing ranges of such a chain by tilings on character boundaries gives such a chain *)
+Theorem C01_tiling_preserves_path_ok :
+  forall t p q, path_ok_b t p = true -> tiled p q -> forallb (bnd t) q = true -> path_ok_b t q = true.
+Proof. exact path_ok_tiled. Qed.
+Print Assumptions C01_tiling_preserves_path_ok.
+
+(* stage 1 is a grouping: what any chain of JoinNumeric / JoinKatakanaOov plugins (Model/Rewrite.v) returns, seen through
+   the byte range each ResultNode reports, is a grouping of its input (adapter over C14's rewrite_is_grouping) *)
+Theorem C01_rewrite_plugins_are_a_grouping_stage :
+  forall t pls p q, Rewrite.run_plugins pls p = Some (Rewrite.Ok q) -> stage t (map rbytes p) (map rbytes q).
+Proof. exact rewrite_stage. Qed.
+Print Assumptions C01_rewrite_plugins_are_a_grouping_stage.
+
+(* stage 2 is a tiling on character boundaries: under C09's well-formedness hypothesis for the requested mode
+   (`mode_wf`: every node whose word declares >= 2 units covers exactly the concatenation of the unit keys, and
+   head_word_length = byte length of the key) split_path (Model/Split.v) does not panic and replaces every node by itself
+   or by a tiling of its byte range whose cuts are boundaries of the UTF-8 encoding `enc t` of the rewritten text *)
+Theorem C01_split_is_a_tiling_stage :
+  forall hw key t ua ub m path,
+    Split.split_facts_ok = true -> mode_wf hw key t ua ub m path ->
+    path_ok_b (enc t) (map sbytes path) = true ->
+    exists path', Split.tokenize_mode hw t ua ub m path = Some path' /\
+                  clos_refl_trans _ (stage (enc t)) (map sbytes path) (map sbytes path').
+Proof. exact tokenize_mode_stage. Qed.
+Print Assumptions C01_split_is_a_tiling_stage.
+
+(* any number of stages after a chain: still a partition of the original, lossless surfaces *)
+Theorem C01_stages_partition_original :
+  forall o s p q, wf_text o = true -> Reach the_cfg o s ->
+    path_ok_b (cur s) p = true -> clos_refl_trans _ (stage (cur s)) p q ->
+    partition_b o (map (map_range (m2o s)) q) = true /\
+    concat (map (byte_slice o) (map (map_range (m2o s)) q)) = o /\
+    (forall r, In r q -> orig_slice s (fst r) (snd r) = Some (byte_slice o (map_range (m2o s) r))).
+Proof. exact (stages_partition_original the_cfg C01_facts_ok). Qed.
+Print Assumptions C01_stages_partition_original.
+
+(* (c) end to end.  For every original o, every buffer state s reachable by input-text edit batches, every candidate set in
+   lattice order and every connection-cost function for which the lattice is connected; p = the best path read back from
+   the lattice; pr = the ResultNodes resolve_best_path builds from it (`rnode_of`: same character range, byte range through
+   mod_c2b; everything else arbitrary); q = what any chain of path-rewrite plugins returns on pr; ps = the same nodes as
+   split_path sees them (`snode_of`); any mode m with C09's well-formedness (`mode_wf`):
+   the tokenizer's last stage returns a path `final`, the byte ranges its nodes report, mapped through the offset map,
+   partition the original text, the surfaces (computed as Morpheme::surface does) are the original text of those ranges and
+   concatenate to the input.
+   Explicit bridging hypothesis: `cur s = enc t` -- the rewritten text, which Buffer.v sees as bytes, is the UTF-8 encoding
+   of the code-point list t that Split.v works on (a Rust String is valid UTF-8). *)
+Theorem C01_pipeline_partitions_original :
+  forall (conn : N -> N -> Z) o s t ns r i c,
+    wf_text o = true -> Reach the_cfg o s -> cur s = enc t ->
+    nodes_ok (nchars (cur s)) ns -> (0 < nchars (cur s))%nat ->
+    connect_eos conn (insert_all conn (reset (nchars (cur s))) ns) = Some (r, i, c) ->
+    exists es p,
+      top_path conn (insert_all conn (reset (nchars (cur s))) ns) = Some es /\
+      map enode es = map Some p /\ path_cost conn p = c /\
+      forall pr pls q ps hw key ua ub m,
+        Forall2 (rnode_of (cur s)) p pr ->
+        Rewrite.run_plugins pls pr = Some (Rewrite.Ok q) ->
+        Forall2 snode_of q ps ->
+        Split.split_facts_ok = true -> mode_wf hw key t ua ub m ps ->
+        exists final,
+          Split.tokenize_mode hw t ua ub m ps = Some final /\
+          let ranges := map (map_range (m2o s)) (map sbytes final) in
+          partition_b o ranges = true /\
+          concat (map (byte_slice o) ranges) = o /\
+          (forall n, In n final ->
+             orig_slice s (fst (sbytes n)) (snd (sbytes n)) = Some (byte_slice o (map_range (m2o s) (sbytes n)))).
+Proof. exact (pipeline_partitions_original the_cfg C01_facts_ok). Qed.
+Print Assumptions C01_pipeline_partitions_original.
+
+(* the bridging hypothesis discharged: `ReachU` = reachable from an original that is the UTF-8 encoding of a code-point
+   list by well-formed batches whose replacement strings are UTF-8 encodings (InputEditor::replace_* take &str / char /
+   String).  Such a state's text is again a UTF-8 encoding: well-formed edits preserve validity *)
+Theorem C01_edits_preserve_utf8 :
+  forall t0 s, ReachU the_cfg (enc t0) s -> exists t, cur s = enc t.
+Proof. exact (reachU_utf8 the_cfg C01_facts_ok). Qed.
+Print Assumptions C01_edits_preserve_utf8.
+
+(* (c) without the bridging hypothesis: the code-point view t of the rewritten text exists, and for it the whole pipeline
+   (lattice -> best path -> rewrite plugins -> split in mode m under C09's well-formedness) partitions the original *)
+Theorem C01_pipeline_partitions_original_utf8 :
+  forall (conn : N -> N -> Z) t0 s,
+    ReachU the_cfg (enc t0) s ->
+    exists t, cur s = enc t /\
+    forall ns r i c,
+      nodes_ok (nchars (cur s)) ns -> (0 < nchars (cur s))%nat ->
+      connect_eos conn (insert_all conn (reset (nchars (cur s))) ns) = Some (r, i, c) ->
+      exists es p,
+        top_path conn (insert_all conn (reset (nchars (cur s))) ns) = Some es /\
+        map enode es = map Some p /\ path_cost conn p = c /\
+        forall pr pls q ps hw key ua ub m,
+          Forall2 (rnode_of (cur s)) p pr ->
+          Rewrite.run_plugins pls pr = Some (Rewrite.Ok q) ->
+          Forall2 snode_of q ps ->
+          Split.split_facts_ok = true -> mode_wf hw key t ua ub m ps ->
+          exists final,
+            Split.tokenize_mode hw t ua ub m ps = Some final /\
+            let ranges := map (map_range (m2o s)) (map sbytes final) in
+            partition_b (enc t0) ranges = true /\
+            concat (map (byte_slice (enc t0)) ranges) = enc t0 /\
+            (forall n, In n final ->
+               orig_slice s (fst (sbytes n)) (snd (sbytes n)) = Some (byte_slice (enc t0) (map_range (m2o s) (sbytes n)))).
+Proof. exact (pipeline_partitions_original_utf8 the_cfg C01_facts_ok). Qed.
+Print Assumptions C01_pipeline_partitions_original_utf8.
